@@ -26,7 +26,7 @@ Init0 ==
   [ sent |-> Empty, arrived |-> Empty, got |-> Empty, returned |-> Empty,
     closeOut |-> {}, closeIn |-> Empty, lclosing |-> {}, lclosed |-> {},
     eofSeen |-> {}, errSeen |-> Empty, observed |-> {}, asked |-> {},
-    lastOut |-> {}, bodyEnded |-> {}, downSeen |-> {}, pending |-> Empty, lateErr |-> {}, drainFail |-> {}, cbSet |-> {}, wantEnd |-> {}, endCount |-> Empty, cbFailed |-> {},
+    lastOut |-> {}, bodyEnded |-> {}, bodyErr |-> {}, downSeen |-> {}, pending |-> Empty, lateErr |-> {}, drainFail |-> {}, cbSet |-> {}, wantEnd |-> {}, endCount |-> Empty, cbFailed |-> {},
     cutSide |-> {}, exited |-> {}, joined |-> {}, ids |-> {}, table |-> Empty,
     ctx |-> Empty, bad |-> "" ]
 
@@ -56,7 +56,10 @@ Step0(st, e) ==
         IF e.op = "4" THEN
            LET s1 == [st EXCEPT !.sent = Put(@, E, Append(SeqOf(st.sent, E), e.tok))] IN
            IF E \in st.closeOut THEN Flag(s1, "C03.data-frame-after-own-close-frame") ELSE s1
-        ELSE IF e.op \in {"5", "6"} THEN [st EXCEPT !.closeOut = @ \cup {E}]
+        ELSE IF e.op \in {"5", "6"} THEN
+           LET s1 == [st EXCEPT !.closeOut = @ \cup {E}] IN
+           \* the remote code ended with an exception: whatever close frame goes out for its channel carries the error
+           IF e.op = "5" /\ S = "w" /\ e.chan \in st.bodyErr THEN Flag(s1, "C07.remote-failure-sent-as-plain-close") ELSE s1
         ELSE IF e.op = "7" THEN [st EXCEPT !.lastOut = @ \cup {E}]
         ELSE IF e.op = "2" THEN [st EXCEPT !.exited = @ \cup {S}]
         ELSE st
@@ -74,7 +77,7 @@ Step0(st, e) ==
         ELSE st
     [] e.ev = "cut" -> [st EXCEPT !.cutSide = @ \cup {S}]
     [] e.ev = "down" -> [st EXCEPT !.downSeen = @ \cup {S}]
-    [] e.ev = "body_end" -> [st EXCEPT !.bodyEnded = @ \cup {e.chan}]
+    [] e.ev = "body_end" -> [st EXCEPT !.bodyEnded = @ \cup {e.chan}, !.bodyErr = IF e.flag THEN @ \cup {e.chan} ELSE @]
     [] e.ev = "deq" ->
         IF e.tok = -1 THEN st
         ELSE LET s1 == [st EXCEPT !.got = Put(@, E, Append(SeqOf(st.got, E), e.tok))] IN
